@@ -722,7 +722,21 @@ def gen_classic(rng, tier, seed):
                 continue
             ops.append(['connect2', a, b, c])
             links += [(a, b), (a, c)]
-        elif r < 0.48 and links:
+        elif r < 0.46:
+            # an outgoing connect to a present peer while another one, to an address nobody has, is failing (page timeout)
+            a, b = rng.sample(range(n), 2)
+            if (a, b) in links or (b, a) in links:
+                continue
+            ops.append(['connect_with_absent', a, b, rng.choice([0, 1])])
+            links.append((a, b))
+        elif r < 0.485:
+            # the application asks twice for the same peer at the same time: one link, reported once on each side
+            a, b = rng.sample(range(n), 2)
+            if (a, b) in links or (b, a) in links:
+                continue
+            ops.append(['connect_twice', a, b])
+            links.append((a, b))
+        elif r < 0.52 and links:
             # the same two devices additionally connect over LE (central with its public address): two links between one pair
             ops.append(['dual', list(rng.choice(links)), rng.choice([1, 2]), rng.choice([0, 1, 40])])
         elif r < 0.75:
@@ -835,6 +849,52 @@ def run_classic(case):
                     established += 1
                 if bad:
                     break
+            elif kind in ('connect_with_absent', 'connect_twice'):
+                a, b = op[1], op[2]
+                for ev in cx.conn_events:
+                    ev.clear()
+                nobody = cx.hci.Address('DE:AD:BE:EF:00:02', cx.hci.Address.PUBLIC_DEVICE_ADDRESS)
+                if kind == 'connect_with_absent':
+                    first_absent = bool(op[3])
+                    targets = [nobody, world[b].device.public_address] if first_absent else [world[b].device.public_address, nobody]
+                else:
+                    targets = [world[b].device.public_address, world[b].device.public_address]
+                ts = [sim.loop.create_task(world[a].device.connect(t_, transport=0, timeout=20.0)) for t_ in targets]
+                st = sim.loop.drive(lambda: all(t.done() for t in ts), vt_budget=60.0)
+                sim.probe('connect_while_another_connect_fails' if kind == 'connect_with_absent' else 'two_connects_to_the_same_peer')
+                if st != 'done':
+                    sim.violation_once('connect', f'connect-hang:classic:{kind}', describe_task(next(t for t in ts if not t.done())))
+                    for t in ts:
+                        t.cancel()
+                    break
+                sim.loop.settle(vt_budget=1.0)
+                sim.loop.advance(0.01)
+                good = [t for t, tg in zip(ts, targets) if bytes(tg) == bytes(world[b].device.public_address) and not t.cancelled() and t.exception() is None]
+                if kind == 'connect_with_absent':
+                    tabs = ts[0] if first_absent else ts[1]
+                    if not tabs.cancelled() and tabs.exception() is None:
+                        sim.violation_once('phantom', 'connect-to-absent-address-succeeded:classic', f'{tabs.result().peer_address}')
+                        break
+                    if not good:
+                        tb_ = ts[1] if first_absent else ts[0]
+                        sim.violation_once('connect', f'connect-failed:classic:while-another-connect-fails:{type(tb_.exception()).__name__ if not tb_.cancelled() else "cancelled"}', f'connect(N{b}) raised {tb_.exception()!r} although N{b} is there and accepted')
+                        break
+                elif not good:
+                    sim.violation_once('connect', 'connect-failed:classic:asked-twice', f'{[repr(t.exception()) for t in ts]}')
+                    break
+                conn = good[0].result()
+                if any(g.result() is not conn for g in good):
+                    sim.violation_once('handle', 'two-connection-objects-for-one-link:classic:asked-twice', 'the two connect() calls were handed different connections to the same peer')
+                    break
+                if bytes(conn.peer_address) != bytes(world[b].device.public_address):
+                    sim.violation_once('wrongconn', f'connect-returned-wrong-connection:classic:{kind}', f'{conn.peer_address}')
+                    break
+                pev = [x for x in cx.conn_events[b] if bytes(x.peer_address) == bytes(world[a].device.public_address)]
+                if len(pev) != 1:
+                    sim.violation_once('pevent', f'peripheral-connection-event:classic:{kind}:count={len(pev)}', f'N{b} saw {[(str(x.peer_address), x.handle) for x in cx.conn_events[b]]}')
+                    break
+                cx.links[(a, b)] = [conn, pev[0]]
+                established += 1
             elif kind == 'send':
                 _, (a, b), side, count, size = op
                 if not _send(cx, a, b, side, count, size):
